@@ -14,9 +14,9 @@
    (date.min <= o <= date.max, which every Python date satisfies).  Cast arguments range over StrFuncs.xval (every BQL
    value and the special Decimals), minus exception values (and minus None for str: the NULL-strict wrapper never
    passes None, str(None) is 'None'). *)
-From Coq Require Import String ZArith QArith List Bool Lia.
+From Coq Require Import String ZArith QArith List Bool Lia Sorted.
 Import ListNotations.
-From Verif Require Import Base.PyValue Model.Eval Model.PyMini Model.Dates Model.StrFuncs Model.PrimsEnv Gen.SrcEnv
+From Verif Require Import Base.StableSort Base.PyValue Model.Eval Model.PyMini Model.Dates Model.StrFuncs Model.PrimsEnv Gen.SrcEnv
   Proofs.PyMiniLemmas Proofs.PyValueProofs.
 Open Scope string_scope.
 Open Scope Z_scope.
@@ -187,6 +187,85 @@ Proof.
   cbn [digits_fuel]. destruct (n <? 10); [cbn [length]; lia|].
   etransitivity; [|apply G]. cbn [length]. lia.
 Qed.
+
+(* ---------------------------------------------------------------- findfirst: the first match in sorted order is the
+   least match (the model folds a running minimum over the set) *)
+Section MinFind.
+Variable P : list Z -> bool.
+Notation le := list_le.
+
+Definition combine (x : list Z) (rest : option (list Z)) : option (list Z) :=
+  if P x then match rest with None => Some x | Some b => if le x b then Some x else Some b end else rest.
+
+Lemma find_insert x : forall l, sorted le l ->
+  find P (insert le x l) = combine x (find P l).
+Proof.
+  induction l as [|y l IH]; intros S; cbn [insert find]; unfold combine.
+  - destruct (P x); reflexivity.
+  - inversion S as [|? ? S' Hy]; subst.
+    destruct (le x y) eqn:Exy; cbn [find].
+    + destruct (P x) eqn:Px; [|reflexivity].
+      destruct (P y) eqn:Py; [rewrite Exy; reflexivity|].
+      destruct (find P l) as [b|] eqn:Fb; [|reflexivity].
+      apply find_some in Fb as [Hin _].
+      rewrite Forall_forall in Hy. specialize (Hy b Hin).
+      rewrite (list_le_trans x y b Exy Hy). reflexivity.
+    + destruct (P y) eqn:Py.
+      * destruct (P x); [rewrite Exy|]; reflexivity.
+      * rewrite (IH S'). reflexivity.
+Qed.
+
+Lemma find_isort l : find P (isort le l) = fold_right combine None l.
+Proof.
+  induction l as [|x l IH]; [reflexivity|]. cbn [isort fold_right].
+  rewrite find_insert by (apply isort_sorted; [apply list_le_total|apply list_le_trans]).
+  rewrite IH. reflexivity.
+Qed.
+
+Definition step (best : option (list Z)) (v : list Z) : option (list Z) :=
+  if P v then match best with None => Some v | Some b => if str_lt v b then Some v else best end else best.
+Definition merge (acc r : option (list Z)) : option (list Z) :=
+  match acc, r with
+  | None, _ => r
+  | Some a, None => Some a
+  | Some a, Some b => if str_lt b a then Some b else Some a
+  end.
+
+Lemma fold_left_merge : forall l acc, fold_left step l acc = merge acc (fold_right combine None l).
+Proof.
+  induction l as [|x l IH]; intros acc; cbn [fold_left fold_right].
+  - destruct acc; reflexivity.
+  - rewrite IH. generalize (fold_right combine None l) as r. intros r. unfold step, combine, merge, str_lt.
+    destruct (P x); [|reflexivity].
+    destruct acc as [a|]; destruct r as [b|]; try reflexivity.
+    + pose proof (list_le_total a x). pose proof (list_le_total x b). pose proof (list_le_total a b).
+      pose proof (list_le_trans a x b). pose proof (list_le_trans x b a). pose proof (list_le_trans b a x).
+      pose proof (list_le_trans x a b). pose proof (list_le_trans a b x). pose proof (list_le_trans b x a).
+      destruct (le a x) eqn:E1; destruct (le x a) eqn:E2; destruct (le x b) eqn:E3; destruct (le b x) eqn:E4;
+        destruct (le a b) eqn:E5; destruct (le b a) eqn:E6; cbn; try rewrite E1; try rewrite E2; try rewrite E3; try rewrite E4; try rewrite E5; try rewrite E6; cbn;
+        try reflexivity; try (exfalso; intuition congruence).
+    + destruct (negb (le a x)); reflexivity.
+    + destruct (le x b) eqn:E; cbn; [reflexivity|]. 
+      pose proof (list_le_total x b) as T. rewrite E in T. destruct T as [T|T]; [discriminate|]. 
+      reflexivity.
+Qed.
+
+Theorem findfirst_min : forall vs, fold_left step vs None = find P (isort le vs).
+Proof. intros. rewrite fold_left_merge, find_isort. reflexivity. Qed.
+End MinFind.
+
+(* ---------------------------------------------------------------- date_bin(str, date, date): calls two other
+   functions of the module (opaque callables: interval, and date_bin whose while-True loops are outside the fragment) *)
+Definition ref_of (name : string) : nat :=
+  match find (fun p => String.eqb (snd p) name) Gen.SrcEnv.refs with Some p => fst p | None => 0%nat end.
+Definition p_rd (r : rdelta) : pv := tagged "relativedelta" [PInt (rd_years r); PInt (rd_months r); PInt (rd_days r)].
+(* a callee's result: an exception value is raised unchanged *)
+Definition raised (v : value) : res pv := match v with VErr k => Exc k | _ => Ok (PV v) end.
+
+Local Arguments prefix_of : simpl never.
+Local Arguments isort : simpl never.
+Local Arguments date_bin_rd : simpl never.
+Local Arguments interval : simpl never.
 
 Section Tie.
 Variable call_ref : nat -> list pv -> pv.
@@ -366,6 +445,72 @@ Theorem account_sortkey_src : forall types a,
 Proof.
   intros. cbn. unfold p_types. rewrite strs_of_pstrs. cbn. unfold f_account_sortkey.
   destruct (index_of (acc_type a) types 0); cbn; [|reflexivity]. rewrite app_nil_r. reflexivity.
+Qed.
+
+(* ---------------------------------------------------------------- findfirst (loop over sorted(values)) *)
+Definition ff_body : list stmt :=
+  [SIf (XPrim "re.match" [XName "pattern"; XName "value"]) [SReturn (Some (XName "value"))] []].
+
+Lemma ff_loop p : forall l loc, lookup "pattern" loc = Some (pstr p) ->
+  exists loc', 
+  for_loop call_ref prim_env ff_body "value" {| locals := loc; fields := [] |} (pstrs l) =
+  Ok (match find (prefix_of p) l with
+      | Some v => Ret {| locals := loc'; fields := [] |} (pstr v)
+      | None => Next {| locals := loc'; fields := [] |}
+      end).
+Proof.
+  induction l as [|v l IH]; intros loc Hp; [exists loc; reflexivity|].
+  cbn [pstrs map for_loop find]. fold (pstrs l).
+  assert (Hp' : lookup "pattern" (update "value" (pstr v) loc) = Some (pstr p))
+    by (rewrite lookup_update_neq by reflexivity; exact Hp).
+  destruct (IH (update "value" (pstr v) loc) Hp') as [loc' IH'].
+  unfold ff_body at 1.
+  cbn [PyMini.exec_block PyMini.exec PyMini.eval bind read write locals fields].
+  rewrite Hp'. cbn [bind locals fields]. rewrite lookup_update_eq. cbn.
+  destruct (prefix_of p v) eqn:E; cbn.
+  - rewrite ?lookup_update_eq. exists (update "value" (pstr v) loc). reflexivity.
+  - exists loc'. exact IH'.
+Qed.
+
+
+Lemma eval_sorted : forall s vs, lookup "values" (locals s) = Some (PList (pstrs vs)) ->
+  PyMini.eval call_ref prim_env s (XPrim "builtins.sorted" [XName "values"]) = Ok (s, PList (pstrs (isort list_le vs))).
+Proof. intros s vs H. cbn. rewrite H. cbn. rewrite strs_of_pstrs. reflexivity. Qed.
+
+Theorem findfirst_sorted : forall p vs,
+  run env_findfirst [pstr p; PList (pstrs vs)] =
+  lift (match find (prefix_of p) (isort list_le vs) with Some v => VStr v | None => VNull end).
+Proof.
+  intros p vs. unfold call_function. cbn [env_findfirst f_params f_body bind_params f_gen].
+  cbn [PyMini.exec_block].
+  destruct vs as [|v0 t]; [reflexivity|].
+  set (vs := v0 :: t).
+  set (s0 := {| locals := [("pattern", pstr p); ("values", PList (pstrs vs))]; fields := [] |}).
+  rewrite (exec_if call_ref prim_env _ _ _ s0 s0 (PBool false) false) by reflexivity.
+  cbn [PyMini.exec_block bind].
+  rewrite (exec_for call_ref prim_env "value" _ _ s0 s0 (pstrs (isort list_le vs))) by (apply eval_sorted; reflexivity).
+  destruct (ff_loop p (isort list_le vs) [("pattern", pstr p); ("values", PList (pstrs vs))] eq_refl) as [loc' E].
+  unfold ff_body in E. subst s0. rewrite E.
+  destruct (find (prefix_of p) (isort list_le vs)); reflexivity.
+Qed.
+
+Theorem findfirst_src : forall p vs, run env_findfirst [pstr p; PList (pstrs vs)] = lift (f_findfirst_lit p vs).
+Proof.
+  intros. rewrite findfirst_sorted. unfold f_findfirst_lit.
+  rewrite <- (findfirst_min (prefix_of p) vs). reflexivity.
+Qed.
+
+Theorem date_bin_str_src : forall s source origin,
+  call_ref (ref_of "beanquery.query_env.interval") [pstr s] =
+    match interval s with None => PNone | Some r => p_rd r end ->
+  (forall r, interval s = Some r ->
+     call_ref (ref_of "beanquery.query_env.date_bin") [p_rd r; PV (VDate source); PV (VDate origin)] =
+     PV (date_bin_rd r source origin)) ->
+  run env_date_bin_str [pstr s; PV (VDate source); PV (VDate origin)] = raised (date_bin s source origin).
+Proof.
+  intros s source origin Hi Hb. unfold date_bin. unfold p_rd, tagged in *. cbn in Hi, Hb. cbn. rewrite Hi.
+  destruct (interval s) as [r|]; [|reflexivity].
+  cbn. rewrite (Hb r eq_refl). destruct (date_bin_rd r source origin); reflexivity.
 Qed.
 
 (* ---------------------------------------------------------------- the same functions as Model/Eval.v's apply_func
